@@ -26,7 +26,7 @@ LEVEL = 'exploration'
 SHARDS = {'quick': 4, 'thorough': 16}
 BUDGET = {'quick': 18, 'thorough': 170}
 
-STEP_KINDS = ('recv', 'recv2', 'send', 'close', 'rstart', 'rcancel', 'rawait')
+STEP_KINDS = ('recv', 'recv2', 'send', 'send!', 'recv!', 'close', 'rstart', 'rcancel', 'rawait')
 K_FAILED_SEND = 'recv-after-failed-send-skips-buffered-messages'
 
 
@@ -110,6 +110,7 @@ class Run:
         self.problems = []
         self.finished = False
         self.send_checks = 0
+        self.left_by_exception = False
         self.app = falcon.asgi.App()
         self.app.ws_options.max_receive_queue = cap
         run = self
@@ -149,6 +150,7 @@ class Run:
             disc_pulled_at_start = self.server.disconnect_pulled
             handed = len(self.R)
             out = None
+            propagate = None
             try:
                 if kind == 'accept':
                     await ws.accept()
@@ -166,6 +168,20 @@ class Run:
                 elif kind == 'send':
                     await ws.send_text('s%d' % i)
                     out = ('ok',)
+                elif kind in ('send!', 'recv!'):
+                    # the responder does not catch: WebSocketDisconnected ends it by exception (the framework's
+                    # error path, not its normal-return path, then has to clean up)
+                    try:
+                        if kind == 'send!':
+                            await ws.send_text('s%d' % i)
+                            out = ('ok',)
+                        else:
+                            v = await self._recv_into_R(ws)
+                            out = ('value', v)
+                    except errors.WebSocketDisconnected as ex:
+                        propagate = ex
+                        out = ('disconnected',)
+                    kind = kind[:-1]
                 elif kind == 'close':
                     await ws.close()
                     out = ('ok',)
@@ -195,6 +211,10 @@ class Run:
                 out = ('exc', type(ex).__name__ + ': ' + str(ex)[:120])
             self.outcomes.append((kind, out, disc_pulled_at_start, handed))
             self.in_op = None
+            if propagate is not None:
+                self.finished = True
+                self.left_by_exception = True
+                raise propagate
         if self.rtask is not None:          # never leave a started receive dangling
             t, self.rtask = self.rtask, None
             t.cancel()
@@ -299,7 +319,7 @@ class Run:
             probs.append(('no-quiescence', {}))
         # -- lost wake-up: the application waits in a receive although something is available
         br = self.receiver()
-        waiting_recv = self.in_op in ('recv', 'recv2', 'rawait') or (self.rtask is not None and not self.rtask.done())
+        waiting_recv = self.in_op in ('recv', 'recv2', 'recv!', 'rawait') or (self.rtask is not None and not self.rtask.done())
         if waiting_recv and br is not None:
             avail = len(br._messages) > 0 or len(self.server.inbox) > 0
             if avail:
@@ -401,12 +421,14 @@ def valid_script(script):
     pending = False
     if 'close' in script[:-1]:
         return False        # the session is over at close(); what misuse after close raises is C17's subject
+    if any(k.endswith('!') for k in script[:-1]):
+        return False        # an uncaught-exception step is generated as the last step only
     for s in script:
         if s in ('rcancel', 'rawait'):
             if not pending:
                 return False
             pending = False
-        elif s in ('recv', 'recv2', 'rstart'):
+        elif s in ('recv', 'recv2', 'recv!', 'rstart'):
             if pending:
                 return False
             if s == 'rstart':
@@ -471,6 +493,8 @@ def explore(rec, st, cfg, max_nodes):
             rec.case((cfg, prefix))
             if any(o[0] == 'rcancel' for o in run.outcomes):
                 rec.count('cls.cancel_pending_receive')
+            if run.left_by_exception:
+                rec.count('cls.responder_left_by_exception')
             if probs:
                 report(rec, cfg, prefix, probs)
             continue
@@ -555,7 +579,7 @@ def run(rec):
             script = []
             pending = False
             for _ in range(m):
-                opts = ['send', 'close'] if pending else ['recv', 'recv', 'recv2', 'recv2', 'send', 'close', 'rstart']
+                opts = ['send', 'send!', 'close'] if pending else ['recv', 'recv', 'recv2', 'recv2', 'recv!', 'send', 'send!', 'close', 'rstart']
                 if pending:
                     opts += ['rcancel', 'rawait', 'rawait']
                 if rng.random() < 0.7 and 'close' in opts:
@@ -581,6 +605,7 @@ def run(rec):
     rec.floor('cls.pump_waiting_for_room', 5)
     rec.floor('cls.disconnect_while_full', 2)
     rec.floor('cls.cancel_pending_receive', 2)
+    rec.floor('cls.responder_left_by_exception', 5)
     rec.floor('random.walks', 20)
 
 
